@@ -31,7 +31,7 @@ GROUPS = {}
 
 class Group:
     def __init__(self, name, fn, configs, functions, loop_free=False, max_paths=None,
-                 assumptions=(), mode='S', notes=''):
+                 assumptions=(), mode='S', notes='', l0=False):
         self.name = name
         self.fn = fn
         self.configs = configs
@@ -41,6 +41,7 @@ class Group:
         self.assumptions = list(assumptions)
         self.mode = mode
         self.notes = notes
+        self.l0 = l0      # run on the contract level of the sparse kernels (DESIGN 2.2 Layering)
         self.property_id = name.split('/')[0]
 
 
